@@ -323,14 +323,23 @@ def rule_e(ctx, ix):
             roles = None
             why = ''
             if isinstance(arg, ast.Attribute) and arg.attr == 'axis':
+                # the role is read off the condition under which the call runs (whichever way the branches are written)
+                from .. import cond as _c
                 pm = pm or parent_map(node)
-                for g, br in guard_chain(pm, c, node):
-                    if isinstance(g, ast.If) and br == 'body':
-                        t = unparse(g.test)
-                        if t.endswith('.world') or 'world_component_ids' in t:
-                            roles, why = {'world'}, 'guarded by `%s`' % t
-                        elif 'pixel_component_ids' in t:
-                            roles, why = {'pixel'}, 'guarded by `%s`' % t
+                st_ = c
+                while st_ is not None and not isinstance(st_, ast.stmt):
+                    st_ = pm.get(id(st_))
+                pc_ = _c.path_condition(node, st_, expand=False) if st_ is not None else None
+                if pc_ is not None:
+                    for a_ in sorted(_c.atoms(pc_)):
+                        try:
+                            pos, neg = _c.implies(pc_, _c.T(a_)), _c.implies(pc_, _c.Not(_c.T(a_)))
+                        except ValueError:
+                            continue
+                        if (a_.endswith('.world') or 'world_component_ids' in a_) and pos:
+                            roles, why = {'world'}, 'runs only when `%s`' % a_
+                        elif 'pixel_component_ids' in a_ and pos:
+                            roles, why = {'pixel'}, 'runs only when `%s`' % a_
                         if roles:
                             break
             if roles is None and (construct, txt) in SITE_ROLES:
